@@ -143,7 +143,7 @@ def cases(ctx):
             yield {"kind": "request-session", "steps": rng.choice([25, 50]), "seed": rng.randrange(2**31)}
     # ---- result side --------------------------------------------------------------------------------------
     for role in ("create", "recv"):
-        for api in ("keep", "keep_with_info", "measure", "rsp"):
+        for api in ("keep", "keep_with_info", "measure", "rsp", "context"):
             for number in (1, 2, 3, 4):
                 reps = 8 if ctx.quick else 60
                 for _ in range(reps):
@@ -162,7 +162,7 @@ def cases(ctx):
                            "bells": [rng.randrange(4) for _ in range(number)], "bases": [rng.randrange(5) for _ in range(number)],
                            "remote": rng.choice(["bob", "charlie"]), "socket": rng.choice([0, 1])}
                 # single-communication-qubit (NV) hardware: the pairs are moved to memory qubits n-1 .. 0
-                if api in ("keep", "keep_with_info", "measure") and mine():
+                if api in ("keep", "keep_with_info", "measure", "context") and mine():
                     yield {"kind": "result", "role": role, "api": api, "number": number, "hardware": "nv",
                            "bells": [rng.randrange(4) for _ in range(number)], "bases": [rng.randrange(5) for _ in range(number)],
                            "remote": rng.choice(["bob", "charlie"]), "socket": rng.choice([0, 1])}
@@ -524,7 +524,8 @@ def _request(ctx, case):
     from netqasm.sdk.build_epr import EprMeasBasis
     from netqasm.sdk.epr_socket import EPRSocket
     tp, number = case["type"], case["number"]
-    es = EPRSocket(case["remote"], epr_socket_id=case["socket"], remote_epr_socket_id=case["socket"])
+    # (the peer's socket id is another number than the local one: only the LOCAL id is the purpose id of requests and responses)
+    es = EPRSocket(case["remote"], epr_socket_id=case["socket"], remote_epr_socket_id=case["socket"] + 2)
     req = PlannedRequest("create", tp, number, remote=NODE_IDS[case["remote"]], socket=case["socket"])
     link = LinkModel([req], partners=False)
     pipe = Pipe(epr_sockets=[es], link=link, max_qubits=5)
@@ -645,7 +646,7 @@ def _result(ctx, case):
     role, api, number = case["role"], case["api"], case["number"]
     remote = NODE_IDS[case["remote"]]
     # which response type does this call consume?
-    if api in ("keep", "keep_with_info"):
+    if api in ("keep", "keep_with_info", "context"):
         tp = "K"
     elif api == "measure":
         tp = "M"
@@ -660,7 +661,7 @@ def _result(ctx, case):
         if name == "measurement_basis":
             return case["bases"][pair]
         return None
-    es = EPRSocket(case["remote"], epr_socket_id=case["socket"], remote_epr_socket_id=case["socket"])
+    es = EPRSocket(case["remote"], epr_socket_id=case["socket"], remote_epr_socket_id=case["socket"] + 2)
     req = PlannedRequest(role, tp, number, remote=remote, socket=case["socket"], bells=case["bells"], fields=fld)
     link = LinkModel([req], qlink10=bool(case.get("qlink10")))
     pipe = Pipe(epr_sockets=[es], link=link, max_qubits=5, hardware=case.get("hardware", "generic"), node_name=case.get("local", "alice"))
@@ -668,7 +669,11 @@ def _result(ctx, case):
     try:
         with pipe.conn as conn:
             if role == "create":
-                if api == "keep":
+                if api == "context":
+                    with es.create_context(number=number, sequential=True) as (q_, pair_):
+                        q_.measure()
+                    ctx.count("context_requests")
+                elif api == "keep":
                     qubits = es.create_keep(number)
                 elif api == "keep_with_info":
                     qubits, infos = es.create_keep_with_info(number)
@@ -677,7 +682,11 @@ def _result(ctx, case):
                 else:
                     mres = es.create_rsp(number)
             else:
-                if api == "keep":
+                if api == "context":
+                    with es.recv_context(number=number, sequential=True) as (q_, pair_):
+                        q_.measure()
+                    ctx.count("context_requests")
+                elif api == "keep":
                     qubits = es.recv_keep(number, expect_phi_plus=False)
                 elif api == "keep_with_info":
                     qubits, infos = es.recv_keep_with_info(number, expect_phi_plus=False)
@@ -686,6 +695,18 @@ def _result(ctx, case):
                 else:
                     qubits, infos = es.recv_rsp_with_info(number, expect_phi_plus=False)
             conn.flush()
+            if api == "context":
+                # the block form returns no handles: what can be observed is that the request (create) / the receive registration
+                # (recv) is made for THIS socket, i.e. the run completes with every pair delivered and consumed by the block
+                for g_ in pipe.stack.puts:
+                    if (g_.remote_node_id, g_.purpose_id, g_.number) != (remote, case["socket"], number):
+                        ctx.fail(case, f"create_context x{number}: the request reaches the network stack for (node {g_.remote_node_id}, "
+                                       f"purpose {g_.purpose_id}, {g_.number} pairs), the socket is (node {remote}, id {case['socket']}, {number} pairs)")
+                        return ctx.case(case, True)
+                n_meas = sum(1 for (_, _, mn) in pipe.ctrl.executor.pc_trace if mn == "meas")
+                if n_meas != number:
+                    ctx.fail(case, f"{role}_context x{number}: the block ran for {n_meas} pair(s)")
+                return ctx.case(case, number >= 2)
             # ---- read every handle ---------------------------------------------------------------------------
             def expect_field(pair, name):
                 if name in ("create_id", "sequence_number", "goodness", "goodness_time", "measurement_outcome"):
